@@ -36,6 +36,64 @@ def sql_templates(m):
     return out
 
 
+def _ends_with_delimiter(m):
+    """The formatted text ends with the DELIMITER constant (last piece is `{}` fed by DELIMITER)."""
+    if not m["pieces"]:
+        return False
+    last = m["pieces"][-1]
+    return "arg" in last and m["args"][last["arg"]]["src"] == "DELIMITER"
+
+
+def check_prefix_delimited(db, chk, by_root):
+    """`starts_with(object_id, '<p>')` selects "everything under namespace <id>" only when <p> = <id> + DELIMITER: without the
+    trailing delimiter the sibling `<id>x` (and its children) match as well, so an operation on one name sees another's rows."""
+    R = "TABLE-prefix-delimited"
+    chk.rule(R, "the text interpolated into every starts_with(object_id, '...') catalog predicate ends with DELIMITER "
+                "(directly, or through a variable whose every definition is a format! ending with DELIMITER)")
+    n = 0
+    for rid, fam in sorted(by_root.items()):
+        root = db.fns[rid]
+        for k in fam:
+            ms = db.fmts_in(k)
+            for m in ms:
+                owners = [k2 for k2 in fam if k2.r["body_lo"] <= m["line"] <= k2.r["body_hi"]]
+                if max(owners, key=lambda x: (x.id.count("{closure"), -(x.r["body_hi"] - x.r["body_lo"]))) is not k:
+                    continue
+                ps = m["pieces"]
+                for i, p in enumerate(ps):
+                    if "lit" not in p or not p["lit"].endswith("starts_with(object_id, '"):
+                        continue
+                    seg = []
+                    for q in ps[i + 1:]:
+                        if "arg" in q:
+                            seg.append(m["args"][q["arg"]])
+                        else:
+                            break
+                    n += 1
+                    chk.analysed(k)
+                    ok, how = False, "nothing is interpolated"
+                    if seg:
+                        last = seg[-1]
+                        if last["src"] == "DELIMITER":
+                            ok, how = True, "`%s` followed by DELIMITER" % "".join("{%s}" % a["src"] for a in seg[:-1])
+                        elif last["ident"]:
+                            defs = [d for g in fam for j, l in enumerate(g.locals) if l.get("name") == last["ident"]
+                                    for d in g.cfg.defs.get(j, {"whole": []})["whole"]]
+                            lines = set()
+                            for d in defs:
+                                lines.add(d[2].get("ln") if d[0] == "call" else d[3].get("ln"))
+                            allm = {(m2["line"], m2["col"]): m2 for g in fam for m2 in db.fmts_in(g)}
+                            feeders = [m2 for m2 in allm.values() if m2 is not m and m2["line"] in lines]
+                            ok = bool(defs) and len(feeders) == len(lines) and all(_ends_with_delimiter(m2) for m2 in feeders)
+                            how = "`%s` = %s" % (last["ident"], [("format!(%r, %s)" % ("".join(x.get("lit", "{}") for x in m2["pieces"]), ", ".join(a["src"] for a in m2["args"]))) for m2 in feeders] or "not a format! in this function")
+                        else:
+                            how = "`%s` is not a delimited prefix" % last["src"]
+                    chk.ob(R, "%s|%s" % (root.path, "".join(x.get("lit", "{}") for x in ps)[:60]), ok,
+                           "starts_with(object_id, ...) prefix: %s%s" % (how, "" if ok else " -- does not end with DELIMITER: a sibling whose name merely begins with this id matches too"),
+                           k.loc(m["line"]))
+    chk.floor(R, "starts_with(object_id, ..) predicates", n, 3)
+
+
 def run(db, chk):
     R = "ORIGIN-sql-literal"
     chk.rule(R, "values interpolated into quoted SQL literals of catalog predicates come from a sanitiser")
@@ -85,6 +143,8 @@ def run(db, chk):
                                "sanitised" if sanitised else "NOT from a sanitiser: a name containing `'` rewrites the predicate (wrong entry read / deleted)"),
                            k.loc(m["line"]))
     chk.floor(R, "quoted interpolations in catalog predicates", sites, 5)
+
+    check_prefix_delimited(db, chk, by_root)
 
     R2 = "DOM-delimiter"
     chk.rule(R2, "components joined with the object-id delimiter have been checked not to contain it")
